@@ -126,7 +126,8 @@ def run_tlc(ctx, module, cfg, workers=None, timeout=600, env=None, extra=(), con
             m = re.match(r'^(\d+) states generated, (\d+) distinct states found', line)
             if m:
                 res["states"], res["distinct"] = int(m.group(1)), int(m.group(2))
-    res["tail"] = "\n".join(tail[-60:])
+    errs = [i for i, x in enumerate(tail) if x.startswith("Error:")]
+    res["tail"] = "\n".join(tail[errs[0]:errs[0] + 30] if errs else tail[-25:])
     return res
 
 
